@@ -502,8 +502,10 @@ func (h *Session) SetDHCPv4IPOffer(mac net.HardwareAddr, ip netip.Addr, name Nam
 	h.mutex.Lock()
 	defer h.mutex.Unlock()
 	macEntry := h.MACTable.findOrCreate(mac)
+	macEntry.Row.Lock() // notifications read these fields under the row lock
 	macEntry.IP4Offer = ip
 	macEntry.DHCP4Name = name
+	macEntry.Row.Unlock()
 }
 
 // DHCPv4Offer returns the dhcp v4 ip offer if one is available.
@@ -512,6 +514,8 @@ func (h *Session) DHCPv4IPOffer(mac net.HardwareAddr) netip.Addr {
 	h.mutex.RLock()
 	defer h.mutex.RUnlock()
 	if entry, _ := h.MACTable.findMAC(mac); entry != nil {
+		entry.Row.RLock() // DHCPv4Update writes the offer under the row lock
+		defer entry.Row.RUnlock()
 		return entry.IP4Offer
 	}
 	return netip.Addr{}
